@@ -29,3 +29,5 @@ def run_deductive(rep):
     verify.verify_many(rep, items)
     from ..static import provenance
     provenance.report(rep, only=("reductions/", "utils/"))
+    from ..static import frames
+    frames.report(rep, table=frames.MOMENTS, conditions=("F5",))      # gamma / signed_weights / bound / project_lambda are pure queries of the loaded data (no caches)
